@@ -48,7 +48,6 @@ ALLOWED = {"S": {"client.py"}, "E": {"client.py", "__init__.py", "operations.py"
 
 
 E_SHADOW = "C15-extract-constant-shadowed"
-N_CUSTOM = "C15-no-reimports-custom-operations"
 
 PLANS = [
     {"k": 0, "null": 0.0, "lens": [1], "seed": 0},
@@ -482,13 +481,7 @@ def compare(case, cfg, ops, plans, base_run, res, ev, first):
     load, bload = res["load"], base_run["load"]
     if not load.get("ok"):
         rep = replay_of(case, cfg, modules={k: v for k, v in load.get("modules", {}).items() if v != "ok"})
-        bad = rep["modules"]
-        if ("N" in cfg and case.sc.config.get("enable_custom_operations") and bad
-                and set(bad) <= {"custom_queries", "custom_mutations", "custom_fields", "custom_typing_fields"}
-                and all("cannot import name" in v for v in bad.values())):
-            ev.append(("finding", N_CUSTOM, f"package generated with {cfg!r} and enable_custom_operations does not import: {bad}", rep))
-            ev.append(("dist", "finding_inputs", "custom-operations+NoReimports"))
-            return
+        # (finding C15-no-reimports-custom-operations — `from . import <Enum>` in custom_*.py — is fixed by /repo 2282fe6)
         # (finding F24 — every ClientForwardRefs package failed here — is fixed by /repo 7b86743: a regression is a violation)
         ev.append(("violation", f"package generated with plugins {cfg!r} does not import: {rep['modules']}", rep, True))
         return
